@@ -341,3 +341,7 @@ NO_FRAME_GROUPS = ("dependencies",)
 
 REPLAY = dict(c13.REPLAY)
 REPLAY.update(c05.REPLAY)
+from suites import progenum as _pg
+for _n, _g in (("assignments", _pg.g_f1), ("augmented-assignments", _pg.g_f2), ("expressions-in-scopes", _pg.g_f8), ("binding-forms", _pg.g_f4),
+               ("class-statements", _pg.g_f6), ("import-forms", _pg.g_f7), ("function-signatures", _pg.g_f3)):
+    GROUPS[f"thorough:enum-{_n}"] = _th.only_thorough(_g)
